@@ -15,12 +15,14 @@ EXTENDS Naturals, Sequences, FiniteSets
 Shapes == {"direct", "tsr", "redirect", "noroute", "nomethod", "options", "lookup", "lookupclone", "clonewith", "clone",
            "tsrclone", "hostdirect", "hosttsr", "statichost", "hijack", "txnlookup",
            "staticdirect", "statictsr", "tsrclonewith", "tsrlookup", "wrapclone", "directcopy", "noroutecopy",
-           "swapped", "wrapf"}
+           "swapped", "wrapf", "noquery", "hostnomethod"}
+\* noquery: a request without a query string whose handler writes into the values QueryParams returned; hostnomethod: a
+\* 405 whose Allow header is computed by walking hostname routes with competing static and parameter labels
 \* hijack: the handler takes over the connection (the next user of the context must find a working writer);
 \* txnlookup: the handler routes its request by hand through a read-only transaction (View + Txn.Lookup)
 RouteShapes == {"direct", "tsr", "lookup", "lookupclone", "clonewith", "clone", "tsrclone", "hostdirect", "hosttsr", "statichost",
                 "hijack", "txnlookup", "staticdirect", "statictsr", "tsrclonewith", "tsrlookup", "wrapclone", "directcopy",
-                "swapped", "wrapf"}
+                "swapped", "wrapf", "noquery"}
 \* swapped: the handler observes, then replaces the context's request (SetRequest, a foreign request whose query it
 \* then reads) and writer (SetWriter) - whoever gets this context next must see nothing of either; wrapf: the handler is
 \* an http.HandlerFunc behind WrapF: it gets the current request's parameters, as a copy of its own that stays as it is
@@ -34,12 +36,13 @@ StaticShapes == {"staticdirect", "statictsr"}
 CloneShapes == {"lookupclone", "clone", "tsrclone", "wrapclone"}
 KeptParamShapes == {"wrapf"}      \* what is kept is the parameter list handed to the wrapped handler
 HostParamShapes == {"hostdirect", "hosttsr"}
+NeedsHostShapes == HostParamShapes \cup {"statichost", "hostnomethod"}
 
 ScopeOf(shape) ==
   CASE shape \in RouteShapes -> "route"
     [] shape = "redirect" -> "redirect"
     [] shape \in {"noroute", "noroutecopy"} -> "noroute"
-    [] shape = "nomethod" -> "nomethod"
+    [] shape \in {"nomethod", "hostnomethod"} -> "nomethod"
     [] shape = "options" -> "options"
 
 \* "T" = the current request's token, "-" = absent/empty
@@ -49,7 +52,7 @@ Expect(shape) ==
                ELSE IF shape \in StaticShapes THEN <<>>
                ELSE IF shape \in RouteShapes THEN <<"T">> ELSE <<>>,
    scope   |-> ScopeOf(shape),
-   query   |-> "T", reqhdr |-> "T", path |-> "T", host |-> IF shape = "statichost" THEN "static" ELSE "T", remote |-> "T",
+   query   |-> IF shape = "noquery" THEN "-" ELSE "T", reqhdr |-> "T", path |-> "T", host |-> IF shape = "statichost" THEN "static" ELSE "T", remote |-> "T",
    status  |-> 200, size |-> 0, written |-> FALSE,
    resphdr |-> "-"]                         \* nothing of an earlier response is visible
 
